@@ -52,7 +52,7 @@ fn run(ops: &str, out: &str, stats_path: Option<&str>) {
                     _ => "bad-op".into(),
                 }
             }
-            "ent" | "fld" | "build" | "upgrade" | "row" | "q" | "qs" | "qe" | "qg" | "qf" | "qo" | "ql" | "qa" | "qn" | "run" | "pages" => match case05.as_mut() {
+            "ent" | "fld" | "build" | "upgrade" | "row" | "q" | "qs" | "qe" | "qg" | "qj" | "qf" | "qo" | "ql" | "qa" | "qn" | "run" | "pages" => match case05.as_mut() {
                 Some(c) => {
                     let mut orc = vec![];
                     let r = std::panic::catch_unwind(std::panic::AssertUnwindSafe(|| c05::step(c, &kind, &kv, &mut stats, &mut orc)));
